@@ -2,6 +2,7 @@
 From Coq Require Import List NArith ZArith.
 From YV Require Import Base.Wire Model.Binary Model.Batch Model.InPlace.
 From YV Require Import Proofs.ProtocolProofs Proofs.BatchProofs Proofs.InPlaceProofs.
+From YV Require Import Model.CodedCpp Model.CodedPy Model.PyTyped Proofs.PyTypedProofs Model.PyReadProg Model.PyTypedRead Proofs.PyTypedReadProofs.
 Import ListNotations.
 Open Scope N_scope.
 
@@ -42,6 +43,16 @@ Theorem C17_stream_reusing_destination : forall fuel t cbr old l,
   read_stream_reusing fuel t cbr old l = read_items (dec t) fuel cbr l.
 Proof. exact read_stream_reusing_eq. Qed.
 Print Assumptions C17_stream_reusing_destination.
+
+(* generated Python: a stream step written in ANY grouping of lists and iterables (empty ones included) - the calls of
+   Model.PyTyped.py_stream_ops - is read back by the reader program of Model.PyTypedRead (blocks as they come, any number of
+   them) as the items in their order: the grouping is not observable.  Both models are tied to the code by the call traces
+   of C01. *)
+Theorem C17_py_stream_any_grouping : forall t bs fuel rest,
+  forallb (fun b => forallb (has_type t) (batch_items b)) bs = true -> (length (blocks_of bs) < fuel)%nat ->
+  arun_p (py_read_stream fuel t) (obytes (py_stream_ops t bs) ++ rest) = PVal (concat (map batch_items bs)) rest.
+Proof. exact py_stream_any_grouping. Qed.
+Print Assumptions C17_py_stream_any_grouping.
 
 Example C17_hyp_sat :
   forallb (forallb (has_type (TMap (TPrim PString) (TPrim PInt32))))
